@@ -10,6 +10,7 @@ MODELS = {
     "memchr": "stub: core::slice::memchr::memchr -> naive loop (identical result)",
     "lemma-queue": "composition lemma queue-induction (on paper): the empty channel satisfies the acceptance-order invariant and each operation preserves it, so the one-step verdicts extend to histories of any length",
     "contract-ewp": "contract stub for Span::enter_with_parent in the add_event/add_properties harnesses (child = Span::new(parent's issued token, name, None)); the real function is decided separately by sp_enter_with_parents_links and sp_from_span_fields",
+    "lemma-stack": "composition lemma stack-top-locality (on paper): every LocalSpanStack operation touches only the top scope, so frames verified at depth <= 2 extend to any depth",
     "kani": "Kani 0.68 MIR->goto translation, CBMC 6.11 symbolic execution, CaDiCaL; dev profile (debug assertions and overflow checks on)",
 }
 
@@ -110,6 +111,44 @@ for n, props, sym in [
     H("fastrace", "span", n, props, sym=sym, bound=SPB, mem_gb=24 if heavy else 12, cap_s=1800 if heavy else 900,
       tier="thorough" if heavy else "quick",
       models=SPM + (("contract-ewp",) if n in ("sp_add_event_shape", "sp_add_properties_shape", "sp_unsampled_add_event_pushes_nothing", "sp_unsampled_add_properties_pushes_nothing") else ()))
+
+# ---------------------------------------------------------------- SpanLine / LocalSpanStack
+SLM = ("kani", "tls", "clock", "rand", "lemma-stack")
+for n, props, sym in [
+    ("sl_token_innermost", ["C02", "C11", "C10"], "token item (all fields), epoch, generator state"),
+    ("sl_token_two_items", ["C02", "C05"], "two token items (all fields), generator state"),
+    ("sl_unsampled_inert_1", ["C05", "C16"], "unsampled token item"),
+    ("sl_sampled_records", ["C06", "C16"], "sampled token item, generator state"),
+    ("sl_unsampled_inert_2", ["C05"], "two token items, both sampling flags"),
+    ("sl_stale_handles_ignored", ["C10"], "two distinct epochs"),
+    ("sl_collector_scope", ["C10", "C17"], "epoch"),
+]:
+    H("fastrace", "local::local_span_line", n, props, sym=sym, bound="a SpanLine as a plain value, <= 3 records, tokens of 1..2 items", models=SLM)
+for n, props, sym in [
+    ("st_no_parent_inert", ["C10", "C16", "C07"], "none"),
+    ("st_scope_frame", ["C10"], "outer and inner token items, generator state"),
+    ("st_span_frame", ["C10"], "token item, generator state"),
+    ("st_capacity", ["C09", "C07"], "token items"),
+]:
+    H("fastrace", "local::local_span_stack", n, props, sym=sym, bound="depth <= 2 scopes, <= 1 span per scope, stack capacity 1 or 4", models=SLM,
+      mem_gb=30 if n in ("st_span_frame",) else 16, tier="thorough" if n in ("st_span_frame",) else "quick", cap_s=1500)
+
+for n, props, sym in [
+    ("sp_guard_drop_pushes_local_spans", ["C01", "C10", "C13"], "token item, span id, clock"),
+    ("sp_guard_when_stack_full", ["C07", "C09"], "token item"),
+    ("sp_noop_set_local_parent", ["C16", "C10"], "none"),
+]:
+    H("fastrace", "span", n, props, sym=sym, bound=SPB + "; explicit span stack of capacity 0 or 4", models=SPM, mem_gb=16)
+for n, props, sym in [
+    ("ls_current_local_parent_empty_token", ["C07", "C11"], "generator state"),
+    ("ls_current_local_parent_fields", ["C11", "C10"], "token item (all fields)"),
+    ("ls_closure_reenters_add_properties", ["C07"], "token item"),
+    ("ls_tls_teardown_local_api", ["C07", "C16"], "none (span stack destroyed)"),
+    ("ls_tls_teardown_span_api", ["C07", "C16"], "none (span stack destroyed)"),
+    ("ls_tls_teardown_sender_gone", ["C07"], "token item, collect id"),
+]:
+    H("fastrace", "local::local_span", n, props, sym=sym, bound="public thread-local entry points on virtual thread 0, one scope, 1..3 calls", models=SPM,
+      mem_gb=30 if n == "ls_closure_reenters_with_properties" else 16, tier="thorough" if n == "ls_closure_reenters_with_properties" else "quick", cap_s=1500)
 
 COLLECTOR_OUT = "everything downstream of Receiver::try_recv (handle_commands, per-trace maps, amend/mount, Reporter::report, report interval, flush())"
 
